@@ -134,6 +134,15 @@ class Machine:
                 subs = p.get("pats", []) if k == "tstruct" else []
                 return all(self.match(pp, vv, env) for pp, vv in zip(subs, v[2]))
             raise Unknown("constructor pattern %s against %r" % (name, v))
+        if k == "struct":
+            if not (isinstance(v, tuple) and v and v[0] == "struct"):
+                raise Unknown("struct pattern against %r" % (v,))
+            for fname, fp in p.get("fields", []):
+                if fname not in v[2]:
+                    raise Unknown("field %s of pattern not modelled" % fname)
+                if not self.match(fp, v[2][fname], env):
+                    return False
+            return True
         if k == "lit":
             return self.lit(p) == v
         if k == "or":
@@ -244,7 +253,27 @@ class Machine:
             if e["name"] == "matches":
                 raise Unknown("matches! without expansion")
             if e["name"] in ("format",):
+                fs = self.hooks["__format_string"](e.get("sp")) if "__format_string" in self.hooks else None
+                if isinstance(fs, str):
+                    vals = [self.ev(a, env) for a in e.get("args", [])]
+                    out, i_ = "", 0
+                    parts = re.split(r"(\{\{|\}\}|\{[^{}]*\})", fs)
+                    for part in parts:
+                        if part == "{{":
+                            out += "{"
+                        elif part == "}}":
+                            out += "}"
+                        elif part.startswith("{") and part.endswith("}"):
+                            if i_ >= len(vals) or not isinstance(vals[i_], str):
+                                return "<formatted>"
+                            out += vals[i_]
+                            i_ += 1
+                        else:
+                            out += part
+                    return out
                 return "<formatted>"
+            if e["name"] in ("warn", "info", "debug", "trace", "error", "eprintln", "println", "log"):
+                return None
             raise Unknown("macro " + e["name"])
         if k == "struct":
             return ("struct", str(e.get("path", "")).split("::")[-1], {f[0]: self.ev(f[1], env) for f in e.get("fields", [])})
@@ -613,6 +642,18 @@ class Machine:
             if name == "last":
                 return some(recv[-1]) if recv else NONE
             if name == "collect":
+                ty_ = (self.c.ty(e.get("ty")) if self.c is not None else "") or ""
+                if ty_.startswith("std::result::Result<") or ty_.startswith("std::option::Option<"):
+                    ok_tag, stop = ("Ok", "Err") if ty_.startswith("std::result") else ("Some", "None")
+                    out = []
+                    for x in recv:
+                        if isinstance(x, tuple) and x and x[0] == stop:
+                            return x
+                        if isinstance(x, tuple) and x and x[0] == ok_tag:
+                            out.append(x[1])
+                        else:
+                            raise Unknown("collect into %s of %r" % (ok_tag, x))
+                    return (ok_tag, out)
                 return recv
             if name == "contains":
                 return args[0] in recv
